@@ -755,7 +755,8 @@ func replay(c *mcx.Ctx, raw json.RawMessage) (string, string) {
 func init() {
 	mcx.Register(&mcx.Driver{
 		ID: "C02", Run: run, Replay: replay,
-		Rule: "every population (subset of size <= 3 quick / <= 4 thorough) of a 29-element catalogue of link files for step s (honest by authorised / unlisted / foreign-step keys, tampered, unsigned, misnamed, named with more than eight characters of the key id, doubly signed (the functionary's signature first or second), with a second worthless entry under the functionary's own key id (after / before the genuine one), forged claimed key id, certificate-signed with good/expired/foreign-root/constraint-violating/attribute-lacking chains, directly below a root or below an intermediate listed in the layout (one under the layout root, one under a foreign root), truncated, a layout, a directory) " +
+		Rule: "also: the second step served only by a plain key the layout authorises for the first step; every population <= 2 verified with a non-empty parameter dictionary as well; " +
+			"every population (subset of size <= 3 quick / <= 4 thorough) of a 29-element catalogue of link files for step s (honest by authorised / unlisted / foreign-step keys, tampered, unsigned, misnamed, named with more than eight characters of the key id, doubly signed (the functionary's signature first or second), with a second worthless entry under the functionary's own key id (after / before the genuine one), forged claimed key id, certificate-signed with good/expired/foreign-root/constraint-violating/attribute-lacking chains, directly below a root or below an intermediate listed in the layout (one under the layout root, one under a foreign root), truncated, a layout, a directory) " +
 			"x threshold 1..3 x authorisation {keys, certificate constraint (a satisfiable constraint followed by one nobody satisfies), mixed; and certificate constraint with a layout that names no root CA, on populations <= 2 at threshold 1, with the catalogue's root in the process's system trust store} x {legacy, DSSE}; for each, InTotoVerify is executed under EVERY iteration order of the per-link counting loop (full permutations; thorough adds one order deviation at every other map range for populations <= 2). " +
 			"A case = one (population, threshold, mode, wrapper), distinct by construction; non-trivial = non-empty population with at least one authorised valid signer. states = populations materialised, transitions = choice points passed.",
 		Assumptions: []string{
